@@ -221,6 +221,27 @@ def check_case(run, nodes, pattern, g, scratch):
         if still:
             run.violation(f"reported_suppressed_key_still_present@{kind}", f"node {i} is said to suppress {sorted(still)} but the keys are still present",
                           dict(witness, ctx=ctx0, node=i))
+        # the value the leaf really received must be the value held by the REPORTED origin
+        if i < len(m.nodes) and m.nodes[i].failed is None and nm.recorded and nm.sweep is None and not nm.slicer:
+            lo, hi = m.nodes[i].leaf_range
+            if hi - lo == 1 and hi <= len(exact_real.leaves) and exact_real.leaves[lo][0] == nm.comp.name:
+                passed = exact_real.leaves[lo][2]
+                for name, value in passed.items():
+                    if name in (nodes[i].get("parameters") or {}):
+                        held, where = (nodes[i]["parameters"][name], "config")
+                    elif name in ni.context_params:
+                        if name not in before:
+                            continue
+                        held, where = before[name], "context"
+                    elif name in ni.default_params:
+                        held, where = ni.default_params[name], "default"
+                    else:
+                        continue
+                    run.count("leaf_values_checked_against_reported_origin")
+                    if not account.close(account.plain(value), account.plain(held)):
+                        run.violation(f"parameter_value_not_from_reported_origin:{where}",
+                                      f"node {i} parameter '{name}': inspection reports origin {where} (holding {held!r}) but the leaf received {value!r}",
+                                      dict(witness, ctx=ctx0, node=i, parameter=name, reported=where, held=repr(held), passed=repr(value)))
         # parameter origins
         if i < len(m.nodes) and m.nodes[i].failed is None:
             for name, (okind, oprod) in m.nodes[i].origins.items():
@@ -253,6 +274,41 @@ def check_case(run, nodes, pattern, g, scratch):
     return {"accepted": True, "nodes_ran": ran}
 
 
+def cli_flow_case(run, g, scratch):
+    """The same soundness clause at the CLI: an accepted configuration whose required keys are all supplied (some via
+    --context, some via the run space) must complete EVERY planned run — also when a node suppresses a supplied key."""
+    from vlib import cli
+
+    rng = g.rng
+    n = rng.randint(2, 4)
+    nodes = [{"processor": "VSrc"}, {"processor": "VMul"}]
+    sup = rng.choice(["rename:factor:used_factor", "delete:factor", "rename:value:seen_value", None])
+    if sup:
+        nodes.append({"processor": sup})
+    if g.chance(0.5):
+        nodes.append({"processor": "VAddNote"})
+    nodes.append({"processor": "VNullSink"})
+    via_context = rng.choice(["factor", "value"])
+    other = "value" if via_context == "factor" else "factor"
+    run_space = {"combine": "combinatorial", "max_runs": 50,
+                 "blocks": [{"mode": "by_position", "context": {other: [g.val() for _ in range(n)]}}]}
+    wd = tempfile.mkdtemp(prefix="cliflow-", dir=scratch)
+    ypath = wd + "/p.yaml"
+    cli.write_yaml(ypath, nodes, run_space, None)
+    from vlib.components import REC
+
+    REC.clear()
+    res = cli.run_cli(["run", ypath, "-q", "--context", f"{via_context}=2.5"], cwd=wd)
+    runs_done = sum(1 for l in REC.snapshot() if l[0] == "VNullSink")
+    run.count("cli_flow_launches")
+    run.count("cli_flow_runs_completed", runs_done)
+    if res.rc != 0 or runs_done != n:
+        run.violation("cli_accepted_config_fails_in_later_run" + (":supplied_key_suppressed_by_node" if sup else ""),
+                      f"`semantiva run` accepted the configuration (all required keys supplied) but completed {runs_done} of {n} runs, exit {res.rc}: {res.err[-200:]}",
+                      {"nodes": nodes, "run_space": run_space, "argv_context": f"{via_context}=2.5", "rc": res.rc, "stderr": res.err[-300:]})
+    shutil.rmtree(wd, ignore_errors=True)
+
+
 def _kind(nm):
     from vlib.diffrun import node_kind
 
@@ -276,6 +332,8 @@ def run(run):
             run.count(f"pattern_{fc['pattern'].split('+')[0]}")
             nontrivial = (res["accepted"] and res["nodes_ran"] >= 2) or bool(res.get("unknown"))
             run.case(canon_hash(fc["nodes"]), nontrivial, sample={"pattern": fc["pattern"], "nodes": fc["nodes"], "accepted": res["accepted"]} if i < 4 else None)
+            if i % 25 == 0:
+                cli_flow_case(run, g, scratch)
     finally:
         shutil.rmtree(scratch, ignore_errors=True)
     run.floor("accepted", 50)
